@@ -8,6 +8,7 @@ import WrglModel.Model.Diff
 import WrglModel.Spec.Diff
 import WrglModel.Spec.DiffWF
 import WrglModel.Lemmas.C04
+import WrglModel.Lemmas.Bridge
 import WrglModel.Gen.Facts
 namespace Wrgl
 
@@ -27,5 +28,41 @@ theorem C04_diff_exact (arity : Nat) (harity : 0 < arity) (t1 t2 : ATable)
       diffVerdict t1.allRows t2.allRows evs = [] := by
   rw [C04_fact_emptyGuard]
   exact diffRows_exact Facts.blockSize arity (by decide) harity t1 t2 h1 h2 hk hr
+
+/-! ### the hypotheses of `C04_diff_exact` are what C03 proves of a stored table -/
+
+/-- A stored table satisfying C03's invariant `tableInv` (with one recorded hash pair per row and
+    all keys of one arity) is, to the differ, a well-formed abstract table: `ATable.WF` is a
+    consequence of C03, not an assumption. -/
+theorem C04_wf_from_C03 (arity : Nat) (t : FullTable) (hinv : tableInv Facts.blockSize t = [])
+    (hh : t.hashes.map List.length = t.blocks.map List.length)
+    (har : ∀ r ∈ t.blocks.flatten, (keyOf t.pk r).length = arity) :
+    (Bridge.aTableOf Facts.blockSize t).WF Facts.blockSize arity :=
+  Bridge.wf_of_tableInv Facts.blockSize arity (by decide) t hinv hh har
+
+/-- … and what the differ reads of it (`ATable.toD`) is exactly what is stored: the block indices
+    and the table index. -/
+theorem C04_differ_reads_stored (t : FullTable) (hinv : tableInv Facts.blockSize t = [])
+    (hh : t.hashes.map List.length = t.blocks.map List.length) :
+    (Bridge.aTableOf Facts.blockSize t).toD = { blocks := t.indices, tblIdx := t.tblIdx } :=
+  Bridge.toD_of_inv Facts.blockSize t hinv hh
+
+/-- C03 ∘ C04: for any two stored tables that satisfy C03's invariant (as every table produced by
+    ingest does, `C03_ingest_inv`, and every table received from such a repository, `C03_receive_inv`)
+    and whose hashes identify keys and rows, the differ run on their stored block indices and table
+    indices reports exactly the added, removed and modified rows. -/
+theorem C04_diff_exact_of_stored (arity : Nat) (harity : 0 < arity) (t1 t2 : FullTable)
+    (i1 : tableInv Facts.blockSize t1 = []) (i2 : tableInv Facts.blockSize t2 = [])
+    (hh1 : t1.hashes.map List.length = t1.blocks.map List.length)
+    (hh2 : t2.hashes.map List.length = t2.blocks.map List.length)
+    (ha1 : ∀ r ∈ t1.blocks.flatten, (keyOf t1.pk r).length = arity)
+    (ha2 : ∀ r ∈ t2.blocks.flatten, (keyOf t2.pk r).length = arity)
+    (hk : HashInj (Bridge.aTableOf Facts.blockSize t1) (Bridge.aTableOf Facts.blockSize t2))
+    (hr : RowHashInj (Bridge.aTableOf Facts.blockSize t1) (Bridge.aTableOf Facts.blockSize t2)) :
+    ∃ evs, diffRows Facts.diffEmptyGuard Facts.blockSize
+        { blocks := t1.indices, tblIdx := t1.tblIdx } { blocks := t2.indices, tblIdx := t2.tblIdx } = .ok evs ∧
+      diffVerdict (Bridge.aTableOf Facts.blockSize t1).allRows (Bridge.aTableOf Facts.blockSize t2).allRows evs = [] := by
+  rw [← C04_differ_reads_stored t1 i1 hh1, ← C04_differ_reads_stored t2 i2 hh2]
+  exact C04_diff_exact arity harity _ _ (C04_wf_from_C03 arity t1 i1 hh1 ha1) (C04_wf_from_C03 arity t2 i2 hh2 ha2) hk hr
 
 end Wrgl
